@@ -51,6 +51,7 @@ pub tracked struct QCtx {
     pub ghost debt_pending: bool,   // this thread made the queue Pending and has not yet pushed+kicked
     pub ghost latching: bool,       // jobs are polled with a DrainWaker (wake memory lives outside the state)
     pub ghost latch_parked: bool,   // this thread parked the queue (WaitingForWake / WaitingForPoll) while latching
+    pub ghost poll_parked: bool,    // this thread parked the queue as WaitingForPoll (owned by a polling future)
     pub ghost nonblocking: bool,    // try_sync: no blocking primitive may be reached
     pub ghost unparked: bool,       // WakeThread: unpark() was called
     pub ghost ran: nat,             // number of times a job / closure was entered by this thread
@@ -67,7 +68,7 @@ pub open spec fn valid(c: QCtx) -> bool { c.v_order && c.v_conserve && c.v_state
 
 /// the context of a thread that is not involved with the queue
 pub open spec fn fresh(c: QCtx) -> bool {
-    !c.holds && !c.parked && c.current is None && !c.debt_idle && !c.debt_pending && !c.latching && !c.latch_parked
+    !c.holds && !c.parked && c.current is None && !c.debt_idle && !c.debt_pending && !c.latching && !c.latch_parked && !c.poll_parked
     && !c.unparked && c.ran == 0 && c.appends == 0 && c.kicks == 0 && c.log.len() == 0 && valid(c)
 }
 pub open spec fn log_extends(new: Seq<Sec>, old: Seq<Sec>) -> bool {
@@ -75,7 +76,7 @@ pub open spec fn log_extends(new: Seq<Sec>, old: Seq<Sec>) -> bool {
 }
 /// frame: what every function under contract preserves of the caller's context
 pub open spec fn kept(n: QCtx, o: QCtx) -> bool {
-    n.nonblocking == o.nonblocking && n.latching == o.latching && n.latch_parked == o.latch_parked && log_extends(n.log, o.log)
+    n.nonblocking == o.nonblocking && n.latching == o.latching && n.latch_parked == o.latch_parked && n.poll_parked == o.poll_parked && log_extends(n.log, o.log)
     && n.appends >= o.appends && n.ran >= o.ran && n.kicks >= o.kicks
 }
 pub open spec fn kept_counts(n: QCtx, o: QCtx) -> bool { kept(n, o) && n.appends == o.appends && n.ran == o.ran && n.unparked == o.unparked }
@@ -84,7 +85,7 @@ pub open spec fn after_schedule_thread(o: QCtx, appended: nat) -> QCtx {
     if appended == 0 { o } else { QCtx { debt_pending: false, kicks: o.kicks + 1, ..o } }
 }
 /// a thread that neither owns the queue nor owes it anything
-pub open spec fn outsider(c: QCtx) -> bool { !c.holds && !c.parked && c.current is None && paid(c) && valid(c) && !c.latching && !c.latch_parked }
+pub open spec fn outsider(c: QCtx) -> bool { !c.holds && !c.parked && c.current is None && paid(c) && valid(c) && !c.latching && !c.latch_parked && !c.poll_parked }
 /// the first critical section a function performed on the queue core
 pub open spec fn first_sec(new: QCtx, old: QCtx) -> Sec { new.log[old.log.len() as int] }
 pub open spec fn paid(c: QCtx) -> bool { !c.debt_idle && !c.debt_pending }
@@ -127,7 +128,7 @@ pub open spec fn step_state(c: QCtx, a: JobQueueCore, b: JobQueueCore) -> QCtx {
         else if s is AwokenWhileRunning && (t is WaitingForUnpark || (t is WaitingForWake && !c.latching) || (t is WaitingForPoll && !c.latching)) { QCtx { v_wake: false, ..c } }
         else if c.current is None && t is Idle { QCtx { holds: false, ..c } }
         else if c.current is None && t is WaitingForWake && (s is Running || c.latching) { QCtx { holds: false, latch_parked: c.latching, ..c } }
-        else if c.current is None && t is WaitingForPoll && c.latching { QCtx { holds: false, latch_parked: true, ..c } }
+        else if c.current is None && t is WaitingForPoll && c.latching { QCtx { holds: false, latch_parked: true, poll_parked: true, ..c } }
         else { QCtx { v_state: false, ..c } }
     }
 }
